@@ -506,6 +506,19 @@ def run_routes(spec, ctx):
                 continue
             vals.append((name, src, o.value))
         ctx.case(("routes", gv.to_source(v)))
+        if v[0] == "map" and vals and v[1]:
+            # the [key, value] entries a map is walked by are lists like any other: equal to the list of the same two values
+            env = ckl.functions.Environment()
+            env.put("c1", vals[0][2])
+            probe = ("def same_(e_) [e_ == [e_[0], e_[1]], [e_[0], e_[1]] == e_, e_ in [[e_[0], e_[1]]], [e_[0], e_[1]] in [e_], length(<<e_, [e_[0], e_[1]]>>) == 1, "
+                     "<<<identity(e_) => 1>>>[[e_[0], e_[1]], 0] == 1, type(e_) == 'list', find([[e_[0], e_[1]]], e_) == 0]; def acc_ = []; "
+                     "for e_ in entries c1 do append(acc_, same_(e_)) end; [acc_, [same_(e_) for e_ in entries c1], [same_(e_) for e_ in c1] == [same_(e_) for e_ in entries c1]]")
+            o = observe(lambda: it.interpret(probe, "c06", env), 900000)
+            ctx.count("entry_list_checks")
+            txt = core.safe_str(o.value if o.kind == "value" else o.exc, 400)
+            if o.kind != "value" or "FALSE" in txt:
+                ctx.violation("C06:entries-are-lists", "c1 = %s: for each entry e of c1, [e == [k, v], [k, v] == e, e in [[k, v]], [k, v] in [e], one set element, map lookup, type, find] = %s" % (
+                    vals[0][1][:300], txt), {"c1": vals[0][1]})
         pairs = [(a, b) for a in range(len(vals)) for b in range(len(vals)) if a < b]
         r.shuffle(pairs)
         for a, b in pairs[:10]:
